@@ -13,3 +13,4 @@ import MakoModel.Props.C09
 #print axioms MakoModel.C09.uri_check_unconditional_and_first
 #print axioms MakoModel.C09.has_template_is_get_template
 #print axioms MakoModel.C09.lookup_returns_only_loaded_templates
+#print axioms MakoModel.C09.temporary_files_beside_module
